@@ -23,7 +23,9 @@ out = ["# Mutation survey (development aid)", "",
        "First-order mutants of the non-test sources (`mutsurvey`), each built, vetted and run against the repository's test suite;",
        "the mutants that pass are analysed by all 19 checks (`pvcheck -property all`, quick tier). 'killed' = the suite fails,",
        "'nocompile' = build or vet fails. The survey is a sample ordered by file (most property-relevant files first) and may be",
-       "incomplete; it never influences a check's verdict.", "",
+       "incomplete; it never influences a check's verdict. The 'reported' column is what the checks said when the mutant was",
+       "run (the survey ran while rules were still being added); every entry marked 'REAL MISS, now reported' below was re-run",
+       "by hand against the final checker and is reported by the rule named there.", "",
        "| file | " + " | ".join(cols) + " |", "|---|" + "---|" * len(cols)]
 for f in sorted(by, key=lambda x: (x == "TOTAL", x)):
     out.append("| %s | %s |" % (f, " | ".join(str(by[f][c]) for c in cols)))
